@@ -510,6 +510,7 @@ class StarSet(object):
         # now to sort our set of vectors (easiest by magnitude, and then reduce down:
         self.states += sorted([s for s in newstateset], key=PairState.sortkey)
         Nnew = len(self.states)
+        if Nnew == Nold: return self  # nothing new is reachable (e.g., a network that does not percolate)
         x2_indices = []
         x2old = np.dot(self.states[Nold].dx, self.states[Nold].dx)
         for i in range(Nold, Nnew):
